@@ -406,8 +406,14 @@ def run(chk):
     n_pairs = 0
     per_class = {}
     value_sets = 1 if quick else 4
-    for v in mc.SUPPORTED_PROTOCOL_VERSIONS:
-        ctx = ConnectionContext(protocol_version=v)
+    shared_ctx = ConnectionContext(protocol_version=mc.SUPPORTED_PROTOCOL_VERSIONS[0])
+    for vi, v in enumerate(mc.SUPPORTED_PROTOCOL_VERSIONS):
+        # the library re-uses one long-lived context and re-assigns its version on connect(): do both
+        if vi % 2:
+            ctx = shared_ctx
+            ctx.protocol_version = v
+        else:
+            ctx = ConnectionContext(protocol_version=v)
         for dname, mod in (('clientbound', cb), ('serverbound', sb)):
             for stname in ('handshake', 'status', 'login', 'play'):
                 for cls in sorted(getattr(mod, stname).get_packets(ctx), key=lambda c: c.__name__):
